@@ -204,6 +204,9 @@ Verdict_cv(ev) ==
        [] ev.ck = "setint" ->
          Names(<< <<"setint", ev.res.f = FIN /\ ev.res.n = (ev.v.n /\ ~IsZero(ev.v.c)) /\ ev.res.c = ev.v.c
                               /\ ev.res.e = ev.e /\ ev.res.cs >= 0 /\ ev.err = "">> >>)
+       [] ev.ck = "newbig" ->
+         Names(<< <<"newbig", ev.res.f = FIN /\ ev.res.n = (ev.v.n /\ ~IsZero(ev.v.c)) /\ ev.res.c = ev.v.c /\ ev.res.e = ev.e /\ ev.res.cs >= 0>>,
+                  <<"arg-unchanged", ev.back.m = ev.v.c /\ ev.back.n = (ev.v.n /\ ~IsZero(ev.v.c))>> >>)
        [] ev.ck = "float64" ->
          Names(<< <<"float64", ev.d.f \in {FIN, INF} => NearestFloat(ev.d, ev.f)>>,
                   <<"float64-nan", TRUE>> >>)
@@ -216,6 +219,8 @@ Verdict_cv(ev) ==
                          [] ev.f.cls = "zero" -> ev.res.f = FIN /\ IsZero(ev.res.c) /\ ev.res.n = ev.f.n
                          [] OTHER -> ev.res.f = FIN /\ ev.res.n = ev.f.n /\ ev.res.cs >= 0
                                      /\ NearestFin(ev.res.c, ev.res.e, ev.f.m, ev.f.k)>>,
+                  <<"setfloat-pre", (ev.ok /\ ev.res2.f >= 0) => (ev.res2.f = ev.res.f /\ (ev.res.f # QNAN => ev.res2.n = ev.res.n)
+                                       /\ (ev.res.f = QNAN => ev.res2.n = ev.res.n) /\ ev.res2.c = ev.res.c /\ ev.res2.e = ev.res.e)>>,
                   <<"shortest", (ev.ok /\ ev.f.cls = "fin" /\ ev.res.f = FIN /\ ~IsZero(ev.res.c)) => Shortest(ev.res, ev.f)>> >>)
        [] ev.ck = "modf" ->
          Names(<< <<"modf", ev.d.f = FIN => ModfOK(ev.d, ev.hasi, ev.res, ev.hasf, ev.res2)>>,
